@@ -4,3 +4,4 @@ import AuthProofs.Trigger
 import AuthProofs.CodeEquiv
 import AuthProofs.CodeEquivOidc
 import AuthProofs.StateInventory
+import AuthProofs.CodeEquivCheck
